@@ -126,7 +126,7 @@ def gen_c05(tier, rng):
         tag = rng.randint(0, 5)
         a = norm_ct(rng)
         k = pick_n(rng, tag, 0.05 if tier == "quick" else 0.01)
-        cases.append("%s %d %s %d" % (rng.choice(["add", "sub"]), tag, " ".join(map(str, a)), k))
+        cases.append("%s %d %s %d" % (rng.choice(["add", "sub", "add", "sub", "addeq", "subeq", "addl"]), tag, " ".join(map(str, a)), k))
     # differences: b = a shifted by a chosen amount (in years/days) or independent
     for _ in range(n):
         tag = rng.randint(0, 5)
@@ -178,6 +178,9 @@ def gen_c05(tier, rng):
             for k in [0, 1, -1, I64_MIN, I64_MAX, I64_MIN + 1]:
                 cases.append("add %d %s %d" % (tag, " ".join(map(str, a)), k))
                 cases.append("sub %d %s %d" % (tag, " ".join(map(str, a)), k))
+                cases.append("addeq %d %s %d" % (tag, " ".join(map(str, a)), k))
+                cases.append("subeq %d %s %d" % (tag, " ".join(map(str, a)), k))
+                cases.append("addl %d %s %d" % (tag, " ".join(map(str, a)), k))
     return cases
 
 
